@@ -145,7 +145,6 @@ func (conn *tcpConn) OnPacket(fn func(*protocol.Packet, error)) {
 	// OnPacket can only invoke once
 	conn.onPacketOnce.Do(func() {
 		go func() {
-			defer close(conn.packetCh)
 			defer verifhook.Point("conn.dispatcher:exit", verifhook.ID(conn))
 
 			for {
@@ -178,8 +177,8 @@ func (conn *tcpConn) Close(err error) {
 	// Close can only invoke once
 	conn.closeOnce.Do(func() {
 		conn.logger.Errorf("close conn, err: %v", err)
+		// writeCh and packetCh stay open: senders may still be running
 		close(conn.closeCh)
-		close(conn.writeCh)
 
 		_ = conn.conn.Close()
 
@@ -284,10 +283,9 @@ func (conn *tcpConn) writing() {
 		}
 
 		select {
-		case b, ok := <-conn.writeCh:
-			if !ok {
-				return
-			}
+		case <-conn.closeCh:
+			return
+		case b := <-conn.writeCh:
 
 			if buf.Length() != 0 {
 				f, e := buf.PeekAll()
